@@ -103,7 +103,10 @@ func setLogLevels(debug bool) {
 	if debug {
 		lv = fastlog.LevelDebug
 	}
-	for _, l := range []*fastlog.Logger{packet.Logger, arp_spoofer.Logger, dhcp4_spoofer.Logger, dns_naming.Logger, icmp_spoofer.Logger4, icmp_spoofer.Logger6} {
+	for _, l := range []*fastlog.Logger{packet.Logger, arp_spoofer.Logger, dhcp4_spoofer.Logger, dns_naming.Logger, dns_naming.LoggerMDNS, icmp_spoofer.Logger4, icmp_spoofer.Logger6} {
 		l.SetLevel(lv)
 	}
+	// the naming handlers have a switch of their own in front of their debug output (a plain variable: it is only ever changed
+	// here, while no library goroutine that could read it is running a handler)
+	dns_naming.Debug = debug
 }
